@@ -29,7 +29,7 @@ ALLOW = {
         'Params invariant len < 32 (= MAX_PARAMS) and current_subparams <= len on entry: every call is on the !is_full() path (C02|guards), and push/extend/clear are the only writers of these private fields (C02|params who-may-write), and Params::clear zeroes both at every sequence start (reset rule, evaluated here too); so len - current_subparams >= 0, both array indexes are < 32, current_subparams + 1 <= 33 fits u8, len + 1 <= 32',
     "<anstyle_parse::params::ParamsIter<'a>_as_core::iter::traits::iterator::Iterator>::next|BoundsCheck:$self.params.subparams[$self.index]":
         'ParamsIter invariant: index < len <= 32 under the `index >= len -> return None` guard (C02|params end-guard); subparams[index] was written by push/extend as the size of the group that starts at index, so index + size <= len <= 32',
-    "<anstyle_parse::params::ParamsIter<'a>_as_core::iter::traits::iterator::Iterator>::next|call:index:$self.params.params[Range{start:_$self.index,_end:_($self.index_Add_($num_subparams_as_usize))}]":
+    "<anstyle_parse::params::ParamsIter<'a>_as_core::iter::traits::iterator::Iterator>::next|call:index:$self.params.params[Range{start:_$self.index,_end:_($self.index_Add_($self.params.subparams[$self.index]_as_us":
         'ParamsIter invariant: index < len <= 32 under the `index >= len -> return None` guard (C02|params end-guard); subparams[index] was written by push/extend as the size of the group that starts at index, so index + size <= len <= 32',
     "<anstyle_parse::params::ParamsIter<'a>_as_core::iter::traits::iterator::Iterator>::size_hint|Overflow(Sub):([anstyle_parse::params::Params::len]($self.params)_Sub_$self.index)":
         'index only advances by recorded group sizes, which end at len at most, so len - index >= 0',
